@@ -1,6 +1,5 @@
 /-
-  C17: mpt_message_argv / mpt_array_message on a fragment list = the contiguous computation,
-  outside the keyed region of the known finding (`Msg.quoteSplit`).
+  C17: mpt_message_argv / mpt_array_message on a fragment list = the contiguous computation.
 -/
 import MptModel.Lemmas.Message
 namespace Mpt
@@ -81,120 +80,21 @@ theorem trim_eq (m : Msg) : ∃ m1, m.trim = .ok m1 ∧ m1.flat = trimFlat m.fla
       simp [h2, List.drop_append, List.drop_of_length_le]
     | none => exact ⟨m, rfl, by simp [Msg.flat]⟩
 
-/- ---------------------------------------------------------------- scanner states that behave alike -/
-
-/-- two scanner states are interchangeable when no comment set is given: same open quote, neither
-    inside a comment, and the previous character is a backslash in both or in neither -/
-def Flat.TokSt.alike (s t : TokSt) : Prop :=
-  s.quote = t.quote ∧ s.skip = false ∧ t.skip = false ∧ ((s.prev == 92) = (t.prev == 92))
-
-theorem tokStep_alike (a : TokArgs) (hcom : a.com = []) (s t : TokSt) (h : s.alike t) (c : Byte) :
-    match tokStep a s c, tokStep a t c with
-    | none, none => True
-    | some s', some t' => s'.alike t'
-    | _, _ => False := by
-  obtain ⟨hq, hs, ht, hp⟩ := h
-  have hp' : s.prev = 92 ↔ t.prev = 92 := by rw [← beq_iff_eq (a := s.prev), hp, beq_iff_eq]
-  unfold tokStep
-  simp only [hs, ht, hcom, hq, List.contains_nil, Bool.false_and, Bool.false_eq_true, if_false]
-  by_cases h1 : (!a.esc.isEmpty && t.quote.isSome) = true
-  · simp only [h1, if_true]
-    simp [Flat.TokSt.alike, hp']
-  · simp only [h1, if_false]
-    by_cases h2 : (!a.esc.isEmpty && a.esc.contains c) = true
-    · simp only [h2, if_true]
-      simp [Flat.TokSt.alike, hs, ht, hp]
-    · simp only [h2, if_false]
-      cases a.tok with
-      | some tk =>
-        by_cases h3 : c ∈ tk
-        · simp [h3]
-        · simp [h3, Flat.TokSt.alike, hq, hs, ht]
-      | none =>
-        by_cases h3 : (!isSpace c) = true
-        · simp [h3]
-        · simp [h3, Flat.TokSt.alike, hq, hs, ht]
-
-theorem scan_alike (a : TokArgs) (hcom : a.com = []) (l : List Byte) (s t : TokSt) (h : s.alike t) :
-    match Flat.scan (tokStep a) s l, Flat.scan (tokStep a) t l with
-    | .found i, .found j => i = j
-    | .more s', .more t' => s'.alike t'
-    | _, _ => False := by
-  induction l generalizing s t with
-  | nil => simpa [Flat.scan] using h
-  | cons c cs ih =>
-    have hst := tokStep_alike a hcom s t h c
-    simp only [Flat.scan]
-    cases h1 : tokStep a s c with
-    | none =>
-      cases h2 : tokStep a t c with
-      | none => simp
-      | some t' => simp [h1, h2] at hst
-    | some s' =>
-      cases h2 : tokStep a t c with
-      | none => simp [h1, h2] at hst
-      | some t' =>
-        simp only [h1, h2] at hst
-        have := ih s' t' hst
-        cases h3 : Flat.scan (tokStep a) s' cs <;> cases h4 : Flat.scan (tokStep a) t' cs <;> simp_all
-
-theorem memtok_single (f : Frag) (a : TokArgs) : Iov.memtok [f] a = Flat.tok f a := by
-  rw [memtok_eq]; simp
-
-/-- the state in which `mpt_memtok` starts -/
-theorem alike_refl0 : ({} : TokSt).alike {} := by simp [Flat.TokSt.alike]
-
-theorem spaceEnd_eq (m1 : Msg)
-    (h : match Flat.scan (tokStep wsTok) {} m1.base with
-      | .more s => ((s.quote.isSome || s.prev == 92) && !m1.cont.flatten.isEmpty) = false
-      | .found _ => True) :
-    m1.spaceEnd = Flat.tok m1.flat wsTok := by
+theorem spaceEnd_eq (m1 : Msg) : m1.spaceEnd = Flat.tok m1.flat wsTok := by
   unfold Msg.spaceEnd
-  rw [memtok_single, memtok_eq]
-  unfold Flat.tok Msg.flat
-  rw [scan_append]
-  have hself := scan_alike wsTok rfl m1.base {} {} alike_refl0
-  cases hb : Flat.scan (tokStep wsTok) {} m1.base with
-  | found p => simp
-  | more s =>
-    simp only [hb] at h hself
-    simp only []
-    by_cases hc : m1.cont.flatten = []
-    · have : Flat.scan (tokStep wsTok) s m1.cont.flatten = .more s := by simp [hc, Flat.scan]
-      rw [this]
-      have h0 : Flat.scan (tokStep wsTok) {} m1.cont.flatten = .more {} := by simp [hc, Flat.scan]
-      split
-      · rename_i heq
-        simp [h0] at heq
-      · rfl
-    · have hne : m1.cont.length ≠ 0 := by
-        intro h0
-        have : m1.cont = [] := List.eq_nil_of_length_eq_zero h0
-        simp [this] at hc
-      have hq : s.quote = none ∧ (s.prev == 92) = false := by
-        have : m1.cont.flatten.isEmpty = false := by simp [hc]
-        simp only [this, Bool.not_false, Bool.and_true, Bool.or_eq_false_iff] at h
-        exact ⟨by simpa using h.1, h.2⟩
-      have hal : s.alike {} := by
-        refine ⟨hq.1, hself.2.1, rfl, ?_⟩
-        rw [hq.2]; decide
-      have := scan_alike wsTok rfl m1.cont.flatten s {} hal
-      simp only [hne, ne_eq, not_false_eq_true, if_true]
-      cases h1 : Flat.scan (tokStep wsTok) s m1.cont.flatten <;>
-        cases h2 : Flat.scan (tokStep wsTok) {} m1.cont.flatten <;> simp_all
+  rw [memtok_eq]; rfl
 
-/-- what `C17.argv_flat_partial` states -/
+/-- what `C17.argv_flat` states -/
 def argvAgrees (m : Msg) (sep : Byte) : Prop :=
   match Flat.argv m.flat sep with
   | none => (m.argv sep).2 = .err .MissingData ∧ (m.argv sep).1.flat = m.flat
   | some (n, d') => (m.argv sep).2 = .ok n ∧ (m.argv sep).1.flat = d'
 
-theorem argv_eq (m : Msg) (sep : Byte) (h : m.quoteSplit sep = false) : argvAgrees m sep := by
+theorem argv_eq (m : Msg) (sep : Byte) : argvAgrees m sep := by
   unfold argvAgrees Msg.argv Flat.argv
-  unfold Msg.quoteSplit at h
   have hflat : (Msg.skipEmpty m.base m.cont).flat = m.flat := by rw [skipEmpty_flat]; rfl
   have hnil := skipEmpty_base_nil m.base m.cont
-  generalize Msg.skipEmpty m.base m.cont = m0 at h hflat hnil ⊢
+  generalize Msg.skipEmpty m.base m.cont = m0 at hflat hnil ⊢
   simp only []
   by_cases hb : m0.base.length = 0
   · have hb' : m0.base = [] := List.eq_nil_of_length_eq_zero hb
@@ -215,14 +115,7 @@ theorem argv_eq (m : Msg) (sep : Byte) (h : m.quoteSplit sep = false) : argvAgre
       simp only [ht, ← hf1]
       by_cases hg : (!isGraph sep) = true
       · simp only [hg, if_true]
-        have hsp : m1.spaceEnd = Flat.tok m1.flat wsTok := by
-          apply spaceEnd_eq
-          have hs' : (sep != 0) = true := by simpa using hs
-          have hb2 : (m0.base.length != 0) = true := by simpa using hb
-          simp only [hs', hg, hb2, ht, Bool.true_and] at h
-          cases hsc : Flat.scan (tokStep wsTok) {} m1.base with
-          | found p => simp
-          | more s => simpa [hsc] using h
+        have hsp : m1.spaceEnd = Flat.tok m1.flat wsTok := spaceEnd_eq m1
         rw [hsp]
         cases Flat.tok m1.flat wsTok with
         | some p => simp
@@ -237,23 +130,19 @@ theorem read_eq (m : Msg) (n : Nat) :
   have h := readLoop_eq m.base m.cont n 0 []
   exact ⟨by simpa [Msg.read, Msg.flat] using h.1, h.2.1⟩
 
-theorem argsLoop_eq (sep : Byte) (fuel : Nat) (m : Msg) (acc : List Byte) (n : Nat)
-    (h : Msg.argsSplit sep fuel m = false) :
+theorem argsLoop_eq (sep : Byte) (fuel : Nat) (m : Msg) (acc : List Byte) (n : Nat) :
     Msg.argsLoop sep fuel m acc n = match Flat.argsLoop sep fuel m.flat acc n with
       | some r => .ok r
       | none => .fault := by
   induction fuel generalizing m acc n with
   | zero => simp [Msg.argsLoop, Flat.argsLoop]
   | succ fuel ih =>
-    unfold Msg.argsSplit at h
-    simp only [Bool.or_eq_false_iff] at h
-    obtain ⟨hq, hrest⟩ := h
-    have hav := argv_eq m sep hq
+    have hav := argv_eq m sep
     unfold argvAgrees at hav
     unfold Msg.argsLoop Flat.argsLoop
     cases hm : m.argv sep with
     | mk m1 res =>
-    rw [hm] at hav hrest
+    rw [hm] at hav
     cases hf : Flat.argv m.flat sep with
     | none =>
       rw [hf] at hav
@@ -265,10 +154,10 @@ theorem argsLoop_eq (sep : Byte) (fuel : Nat) (m : Msg) (acc : List Byte) (n : N
       simp only [] at hav
       obtain ⟨hres, hfl⟩ := hav
       subst hres
-      simp only [] at hrest ⊢
+      simp only []
       by_cases hz : len = 0 ∧ sep ≠ 0
       · simp [hz]
-      · simp only [hz, if_false] at hrest ⊢
+      · simp only [hz, if_false]
         have hr1 : (if len = 0 then (⟨m1, 0, []⟩ : Msg.ReadRes) else m1.read len).out = d'.take len ∧
             (if len = 0 then (⟨m1, 0, []⟩ : Msg.ReadRes) else m1.read len).msg.flat = d'.drop len := by
           split
@@ -276,20 +165,20 @@ theorem argsLoop_eq (sep : Byte) (fuel : Nat) (m : Msg) (acc : List Byte) (n : N
           · rw [← hfl]; exact read_eq m1 len
         have hr2 := (read_eq (if len = 0 then (⟨m1, 0, []⟩ : Msg.ReadRes) else m1.read len).msg 1).2
         rw [hr1.2, List.drop_drop] at hr2
-        have := ih _ (acc ++ (if len = 0 then (⟨m1, 0, []⟩ : Msg.ReadRes) else m1.read len).out ++
-            List.replicate (len - (if len = 0 then (⟨m1, 0, []⟩ : Msg.ReadRes) else m1.read len).out.length) 0 ++ [0]) (n + 1) hrest
+        have := ih ((if len = 0 then (⟨m1, 0, []⟩ : Msg.ReadRes) else m1.read len).msg.read 1).msg (acc ++ (if len = 0 then (⟨m1, 0, []⟩ : Msg.ReadRes) else m1.read len).out ++
+            List.replicate (len - (if len = 0 then (⟨m1, 0, []⟩ : Msg.ReadRes) else m1.read len).out.length) 0 ++ [0]) (n + 1)
         rw [this, hr2, hr1.1]
 
-theorem arrayMessage_eq (m : Msg) (sep : Byte) (h : Msg.argsSplit sep (m.length + 1) m = false) :
+theorem arrayMessage_eq (m : Msg) (sep : Byte) :
     m.arrayMessage sep = match Flat.args m.flat sep with
       | some r => .ok r
       | none => .fault := by
   have hl : m.length = m.flat.length := by simp [Msg.length, Msg.flat, foldl_len]
   unfold Msg.arrayMessage Flat.args
-  rw [hl] at h ⊢
+  rw [hl]
   split
   · rfl
-  · exact argsLoop_eq sep _ m [] 0 h
+  · exact argsLoop_eq sep _ m [] 0
 
 /- the contiguous loop always terminates within its fuel -/
 
